@@ -57,6 +57,17 @@ def dim_is_one(a):
     return const_int(a) == 1
 
 
+def _placeholder_dim(d):
+    """a length the interpreter could not express (slice with unmodelled bounds): no shape verdict can rest on it"""
+    if not isinstance(d, Expr):
+        return True
+    for a in d.atoms():
+        if a.kind == "fn" and a.name == "len" and a.args and isinstance(a.args[0], Expr):
+            if any(b.kind == "sym" and b.name.startswith("slice@") for b in a.args[0].atoms()):
+                return True
+    return False
+
+
 def broadcast(I, sa, sb, node):
     if sa is None or sb is None:
         return None
@@ -73,6 +84,8 @@ def broadcast(I, sa, sb, node):
             out.append(y)
         elif dim_is_one(y):
             out.append(x)
+        elif _placeholder_dim(x) or _placeholder_dim(y):
+            out.append(x if _placeholder_dim(y) else y)
         else:
             I.event("shape", node, "operands could not be broadcast: %r vs %r" % (tuple(sa), tuple(sb)))
             out.append(x)
@@ -253,6 +266,9 @@ def _note_carried(I, node, *xs):
 
 def elementwise_compare(I, sym, a, b, node):
     _note_carried(I, node, a, b)
+    for x, y in ((a, b), (b, a)):
+        if isinstance(x, Arr) and x.meta.get("int_diff_of_param") and isinstance(y, Expr) and y.as_const() is not None:
+            I.event("dtype", node, "sign test on np.diff of the caller's integer array %s: for unsigned dtypes the differences wrap around and are never negative" % x.meta["int_diff_of_param"])
     if isinstance(a, Arr) and a.meta.get("ivec") is not None and isinstance(b, Expr) and a.ndim == 1:
         return Arr(a.shape, Unknown("comparison of an index vector"), "bool", {"ivec_cmp": (a.meta["ivec"], sym, b)})
     sa = a.shape if isinstance(a, Arr) else ()
@@ -997,7 +1013,7 @@ def store(I, arr, idx, v, node, env):
                 region.append(dim)
             else:
                 ln, lo = _slice_len(I, it, dim)
-                region.append(ln if isinstance(ln, Expr) else dim)
+                region.append(ln if isinstance(ln, Expr) else alg.fn("len", alg.sym("slice@%s" % getattr(node, "lineno", 0)), integer=True))
                 if not (level_axis(arr) == axis):
                     # partial stores (e.g. M_shifted[1:]) are kept as opaque updates
                     level = ("partial", it)
@@ -1138,7 +1154,7 @@ def _check_assignable(I, region, vshape, node):
     while len(v) < len(r):
         v.insert(0, ONE)
     for x, y in zip(r, v):
-        if not (dim_eq(x, y) or dim_is_one(y)):
+        if not (dim_eq(x, y) or dim_is_one(y) or _placeholder_dim(x) or _placeholder_dim(y)):
             I.event("shape", node, "cannot assign value of shape %r to region of shape %r" % (vshape, region))
             return
 
@@ -1756,7 +1772,10 @@ def np_diff(I, args, kwargs, node):
             dt = "inherit:%s" % x.name if x.dtype is None else x.dtype
         if isinstance(x, SymArr):
             gen = lambda k, x=x: x.at(k + ONE) - x.at(k)
-            return Arr((n1,), gen(alg.fn("idx", n1, integer=True)), dt or "float", {"diff_of": x, "gen": gen, "param_derived": x.name})
+            m = {"diff_of": x, "gen": gen, "param_derived": x.name}
+            if x.dtype in ("int", "int64", "uint", "integer"):
+                m["int_diff_of_param"] = x.name  # for unsigned integer input the differences wrap around instead of going negative
+            return Arr((n1,), gen(alg.fn("idx", n1, integer=True)), dt or "float", m)
         g = x.meta.get("gen")
         if g is not None:
             gen = lambda k, g=g: g(k + ONE) - g(k)
@@ -2269,6 +2288,13 @@ def np_roll(I, args, kwargs, node):
 def np_searchsorted(I, args, kwargs, node):
     a, v = args[0], args[1]
     side = _kw(args, kwargs, 2, "side", "left")
+    if isinstance(a, Arr) and a.meta.get("sorted_unique") and a.meta.get("unique_of") is not None and isinstance(v, Arr) and side == "left":
+        src = a.meta["unique_of"]
+        if v is src or (isinstance(v.val, Expr) and isinstance(src.val, Expr) and v.val.eq(src.val) and v.shape == src.shape):
+            # position of every request among the sorted distinct requests: exactly np.unique's inverse
+            ua = _single_atom(a.val)
+            tag = ua.args[0].top_atoms().pop().name if ua is not None and ua.kind == "fn" and ua.args and isinstance(ua.args[0], Expr) and len(ua.args[0].top_atoms()) == 1 else "unique"
+            return Arr(v.shape, alg.fn("elem", alg.sym("inverse:" + tag), integer=True), "int", {"inverse_of": (a, src)})
     if isinstance(a, Arr) and isinstance(a.val, Expr) and isinstance(v, Expr) and isinstance(side, str):
         return alg.fn("searchsorted", a.val, v, side, integer=True)
     return Unknown("np.searchsorted")
